@@ -50,6 +50,11 @@ RULE = ("Options = every entry of behave.configuration.OPTIONS that has a positi
         "crossed with what sys.stdout is while the configuration is read {harness StringIO, the real stdout, "
         "TextIOWrapper latin-1/cp1252/ascii/utf-8, object without encoding}: values arrive as written (files are "
         "UTF-8), ini == toml, none of it depends on stdout; also command-line text and -D with non-ASCII text; "
+        "(5e) library use: Configuration(args, load_config, userdata=<none | "
+        "dict | UserData | UserData with a UserDataNamespace view taken before>) x every subset of -D {override, new "
+        "name, bare flag, namespaced name} x config file {ignored, absent, cwd with/without userdata, HOME}, and "
+        "assigning config.userdata/config.userdata_defines then calling setup_userdata() again: -D wins, getint/"
+        "getbool and a namespace view of config.userdata see the effective values; "
         "(6) ordered pairs of build specs: Configuration A then B in one process without "
         "reset, B must equal a fresh B. In every build ALL options are compared (mentioned ones with the precedence "
         "rule, all others with the documented default), except options rewritten by an active documented mode switch "
@@ -70,6 +75,8 @@ ASSUMPTIONS = [
     "command-line arguments are passed as a list of text (no byte decoding, no shlex); the string/bytes forms of "
     "command_args, whose decoding may legitimately use the stream encoding in make_command_args, are not covered",
     "environment-variable sources (BEHAVE_STAGE, BEHAVE_COLOR) are not part of the precedence sweep",
+    "userdata handed over as a Configuration(...) default vs the same name in a config file: either value accepted "
+    "(not stated); a UserDataNamespace view taken BEFORE the construction is observed, not judged",
 ]
 
 ABSENT = "<absent>"
@@ -456,8 +463,15 @@ def build(spec):
         os.chdir(sc.cwd)
         os.environ["HOME"] = sc.home
         sys.stdout, sys.stderr = make_stdout(spec.get("stdout")), io.StringIO()
+        kwargs = {}
+        if "load_config" in spec:
+            kwargs["load_config"] = spec["load_config"]
+        if spec.get("handover") is not None:
+            obs["handed"], obs["preview"] = make_handover(spec["handover"])
+            if obs["handed"] is not None:           # kind "none": the keyword is not given at all
+                kwargs["userdata"] = obs["handed"]
         try:
-            cfg = Configuration(list(args))
+            cfg = Configuration(list(args), **kwargs)
         except BaseException as e:      # SystemExit (argparse error) included
             obs["exc"] = type(e).__name__
             obs["exc_text"] = norm_value("%s | %s" % (e, sys.stderr.getvalue()[-300:]), sc.root)
@@ -496,7 +510,7 @@ def build(spec):
 
 
 def digestable(obs):
-    d = {k: v for k, v in obs.items() if k not in ("cfg", "abs")}
+    d = {k: v for k, v in obs.items() if k not in ("cfg", "abs", "handed", "preview")}
     if "opts" in d:
         d["opts"] = sorted(d["opts"].items())
     for key in ("userdata", "more_formatters", "more_runners", "runner_aliases"):
@@ -1523,6 +1537,148 @@ def run_read_enc(case):
             "dg": sorted(got.items()), "out": ("read-enc", digest(sorted(got.items())))}
 
 
+# ---- library use: userdata handed over to Configuration(...) / assigned before calling setup_userdata() again ----
+# The KIND of object that holds the userdata before the -D defines are applied must not matter: a plain dict (what
+# the command-line flow and every config file produce), a UserData object, a UserData object of which a
+# UserDataNamespace view was taken before, or nothing.  -D wins over everything else, typed getters and namespace
+# views (taken from config.userdata afterwards) see the effective values.
+HANDED = (("foo", "H"), ("ns.key", "5"), ("keep", "K"))
+HANDOVER_KINDS = ("none", "dict", "UserData", "UserData+view")
+HANDOVER_DEFINES = (("override", "foo=C"), ("new", "new=N"), ("flag", "flag"), ("ns", "ns.key=7"))
+
+
+def make_handover(kind, items=HANDED):
+    from behave.userdata import UserData, UserDataNamespace
+    if kind == "none":
+        return None, None
+    if kind == "dict":
+        return dict(items), None
+    ud = UserData(items)
+    return ud, (UserDataNamespace("ns", ud) if kind == "UserData+view" else None)
+
+
+def gen_handover(quick):
+    subsets = [c for r in range(len(HANDOVER_DEFINES) + 1) for c in itertools.combinations(range(len(HANDOVER_DEFINES)), r)]
+    filemodes = ("ignored", "absent", "cwd-userdata", "cwd-no-userdata", "home-userdata")
+    for kind in HANDOVER_KINDS:
+        for fm in filemodes:
+            for fname in (("behave.ini",) if quick or fm in ("ignored", "absent") else ("behave.ini", TOML_NAME)):
+                for sub in subsets:
+                    yield ("constructor", kind, fm, fname, sub)
+    for kind in HANDOVER_KINDS[1:]:
+        for first in ((), (0,), (2,)):                      # defines already given to the constructor
+            for sub in subsets:
+                if sub:
+                    yield ("setup_userdata-again", kind, "absent", "behave.ini", first + (-1,) + sub)
+
+
+def effective_userdata(sources, defines):
+    """sources: list of item lists in rising precedence whose mutual order is NOT stated (handed-over default vs
+    config file): either wins; then the -D texts, which win over everything"""
+    want = {}
+    for items in sources:
+        for k, val in items:
+            want.setdefault(k, set()).add(val)
+    for text in defines:
+        k, val = ref_define(text)[0]
+        want[k] = {val}
+    return want
+
+
+def judge_userdata_object(ud, want, v, desc, ctxt):
+    """the userdata object itself, the typed getters and a namespace view taken from it"""
+    from behave.userdata import UserData, UserDataNamespace
+    got = dict(ud) if ud is not None else None
+    if not isinstance(ud, UserData):
+        v.append((dict(desc, clause="userdata-type"), "config.userdata is %s  %s" % (type(ud).__name__, ctxt)))
+        return
+    bad = [k for k in sorted(want) if k not in got or got[k] not in want[k]] + [k for k in sorted(got) if k not in want]
+    if bad:
+        v.append((dict(desc, clause="define-wins"),
+                  "config.userdata expected %s, observed %r (wrong: %s)  %s"
+                  % ({k: sorted(x) for k, x in sorted(want.items())}, got, bad, ctxt)))
+        return
+    view = UserDataNamespace("ns", ud)
+    probes = [("getint('ns.key', -1)", lambda: ud.getint("ns.key", -1), [int(x) for x in want.get("ns.key", ())] or [-1]),
+              ("getbool('flag')", lambda: ud.getbool("flag"), [True] if "flag" in want else [False]),
+              ("UserDataNamespace('ns', userdata).getint('key', -1)", lambda: view.getint("key", -1),
+               [int(x) for x in want.get("ns.key", ())] or [-1]),
+              ("UserDataNamespace('ns', userdata).get('key')", lambda: view.get("key"),
+               sorted(want.get("ns.key", ())) or [None])]
+    for what, f, acc in probes:
+        try:
+            r = f()
+        except Exception as e:
+            r = "EXC:" + type(e).__name__
+        if r not in acc:
+            v.append((dict(desc, clause="getter-or-view-effective"), "%s = %r, expected %r; userdata %r  %s"
+                      % (what, r, acc, got, ctxt)))
+            return
+
+
+def run_handover(case):
+    route, kind, fm, fname, sub = case
+    reset_state()
+    files = ()
+    fud = (("foo", "F"), ("filekey", "FK"))
+    if fm in ("ignored", "cwd-userdata"):
+        files = (fspec("cwd", fname, [("stop", True)], fud),)
+    elif fm == "cwd-no-userdata":
+        files = (fspec("cwd", fname, [("stop", True)]),)
+    elif fm == "home-userdata":
+        files = (fspec("home", fname, [], fud),)
+    if route == "constructor":
+        first, again = sub, ()
+    else:
+        cut = sub.index(-1)
+        first, again = sub[:cut], sub[cut + 1:]
+    spec = {"t": "handover", "files": files, "handover": kind, "load_config": fm != "ignored",
+            "ud_cmd": tuple(("sep", HANDOVER_DEFINES[i][1]) for i in first)}
+    obs = build(spec)
+    desc = {"subcheck": "userdata-handover", "handed": kind, "route": route,
+            "config_file": "ignored" if fm == "ignored" else ("absent" if fm == "absent" else "present")}
+    v = []
+    if "exc" in obs:
+        v.append((dict(desc, clause="build-raises", exc=obs["exc"]), "%r: %s" % (case, obs["exc_text"])))
+        reset_state()
+        return {"v": v, "dg": digestable(obs), "out": ("handover", "exc")}
+    cfg = obs["cfg"]
+    sources = []
+    if kind != "none":
+        sources.append(HANDED)
+    if fm in ("cwd-userdata", "home-userdata"):
+        sources.append(fud)
+    defs = [HANDOVER_DEFINES[i][1] for i in first]
+    want = effective_userdata(sources, defs)
+    ctxt = "[Configuration(%r, load_config=%r, userdata=<%s %r>); files: %s]" % (
+        list(obs["args"]), fm != "ignored", kind, dict(HANDED) if kind != "none" else None, describe_files(spec))
+    judge_userdata_object(cfg.userdata, want, v, desc, ctxt)
+    pre = None
+    if obs.get("preview") is not None:         # a view taken BEFORE: nothing is stated about it - observed only
+        pre = (obs["preview"].get("key"), "flag" in obs["preview"].data)
+    after = None
+    if route != "constructor" and not v:
+        # assign another userdata object of the same kind + defines, call the public setup_userdata() again
+        items2 = (("foo", "H2"), ("ns.key", "6"), ("other", "O"))
+        handed2, _pre2 = make_handover(kind, items2)
+        defs2 = [HANDOVER_DEFINES[i][1] for i in again]
+        cfg.userdata = handed2
+        cfg.userdata_defines = [ref_define(t)[0] for t in defs2]
+        try:
+            cfg.setup_userdata()
+            want2 = effective_userdata([items2], defs2)
+            judge_userdata_object(cfg.userdata, want2, v, desc,
+                                  "[config.userdata = <%s %r>; config.userdata_defines = %r; config.setup_userdata()]"
+                                  % (kind, dict(items2), cfg.userdata_defines))
+            after = sorted(dict(cfg.userdata).items())
+        except Exception as e:
+            v.append((dict(desc, clause="setup_userdata-raises", exc=type(e).__name__), repr(e)))
+    dg = (digestable(obs), pre, after)
+    reset_state()
+    nt = ("handover", case) if (first or again) else None
+    return {"v": v[:1], "nt": nt, "out": ("handover", kind, fm, digest((sorted(obs["userdata"].items()), after))), "dg": dg}
+
+
 # ---- rebuild differential -----------------------------------------------------
 def run_rebuild(case):
     """build A then B in one process without any reset in between; B must look like a fresh B"""
@@ -2030,6 +2186,8 @@ def run(ctx):
               name="non-ASCII config text x kind of sys.stdout (Configuration)")
     ctx.sweep(run_read_enc, gen_read_enc(quick), chunk=8,
               name="non-ASCII config text x kind of sys.stdout (read_configuration)")
+    ctx.sweep(run_handover, gen_handover(quick), chunk=32,
+              name="userdata handed over (none/dict/UserData/+view) x -D x config file; setup_userdata() again")
     ctx.sweep(run_define, gen_defines(), chunk=8, name="-D grammar")
     ctx.sweep(run_build, gen_userdata_override(quick), chunk=32, name="userdata file vs -D")
     getters = [(g, val, dg, via) for g in ("getint", "getfloat", "getbool", "getas_int") for val in GETTER_VALUES
